@@ -105,7 +105,7 @@ mod json {
                 .ok()
                 .and_then(|parent| match parent {
                     Value::Array(children) => {
-                        let idx = last.to_index().ok()?.for_len_incl(children.len()).ok()?;
+                        let idx = last.to_index().ok()?.for_len(children.len()).ok()?;
                         children.remove(idx).into()
                     }
                     Value::Object(children) => children.remove(last.decoded().as_ref()),
@@ -143,7 +143,7 @@ mod toml {
                 .ok()
                 .and_then(|parent| match parent {
                     Value::Array(children) => {
-                        let idx = last.to_index().ok()?.for_len_incl(children.len()).ok()?;
+                        let idx = last.to_index().ok()?.for_len(children.len()).ok()?;
                         children.remove(idx).into()
                     }
                     Value::Table(children) => children.remove(last.decoded().as_ref()),
